@@ -37,7 +37,15 @@ areas_d={
  'B3':"par1 Verify/Repair: probe and read the parity volume files CONCURRENTLY (bounded goroutines), correctly: same volumes accepted, same counts, same error precedence as the sequential loop (the lowest-numbered failing volume decides), delegate callbacks in volume order from one goroutine.",
  'B4':"par2 Create: hash and checksum the input files CONCURRENTLY (file MD5s, 16k hashes, slice CRC/MD5 pairs computed by a worker pool, one file per task), correctly: byte-identical output for every goroutine count, same errors, same delegate order.",
 }
-areas = areas_d if suffix >= 'd' else (areas_c if suffix >= 'c' else (areas_b if suffix >= 'b' else areas_a))
+areas_e={
+ 'B1':"par2 Decoder.Repair: restructure the write phase CORRECTLY - first reassemble and hash-check EVERY file that needs rewriting (into freshly allocated buffers that alias nothing else), and only when all of them have passed start writing; keep: only files that are missing or damaged are written, exactly the protected bytes, every written file listed in RepairedPaths (also when a later write fails), the first write error returned at once, no write after a failed write.",
+ 'B2':"par2 Create (encoder.go / create.go): read and process the input files in a different internal order or in two passes (for example sort the paths first, or hash in one pass and feed the coder in a second pass that re-reads the files), CORRECTLY: byte-identical output for every listing order and spelling, every read error reported as failure (no retries), inputs never written.",
+ 'B3':"error plumbing across par1, par2 and cmd/par: wrap every I/O error with context (operation and path) using fmt.Errorf with %w, replace `==` comparisons of errors by errors.Is / errors.As where needed so that the classification (file does not exist => damage, everything else => error; exit statuses of the CLI) stays EXACTLY the same, including for wrapped errors, io.ErrUnexpectedEOF, io.ErrShortWrite and any errno.",
+ 'B4':"gf2p16/matrix.go and rsec16: a different but CORRECT elimination strategy in the matrix inversion / row reduction (for example choose the pivot row differently among the non-zero candidates, normalise rows at another point, eliminate above and below in one sweep, or invert via a different standard algorithm); the same set of rows (lowest available exponents) must be used, singular matrices must still be reported as errors, results bit-identical.",
+ 'B5':"par2 Verify/Repair scanning shortcuts that are CORRECT: skip the sliding scan of a data file whose whole-file hashes prove it intact (register its slices directly), stop scanning further files only when every slice of the set has really been located (count each slice once), never skip a file that might hold slices of other files unless all slices are already located; counts, hit/miss delegate totals may change only where no property constrains them, ShardCounts must not change.",
+ 'B6':"par1: compute the 16k hash and the full MD5 of each data file in a single pass and avoid keeping redundant copies of file data, CORRECTLY for files shorter than, equal to and longer than 16 KiB, for missing, truncated, grown and corrupt files (decisions must be keyed on the bytes actually read, never on the expected size), with identical Verify counts, Repair results and error behaviour.",
+}
+areas = areas_e if suffix >= 'e' else areas_d if suffix >= 'd' else (areas_c if suffix >= 'c' else (areas_b if suffix >= 'b' else areas_a))
 T='''You are helping test a verification effort for the Go project akalin/gopar (a Go implementation of the PAR1 and PAR2 parity-archive formats with its own GF(2^16) arithmetic, Reed-Solomon coder and a `par` CLI). You have your own scratch git worktree of the repository at {wt} . Work ONLY inside {wt} (source edits) and {out} (your deliverables). Never read or write anything under /repo or /verif.
 
 Every shell call needs: export GOFLAGS=-mod=mod GOPROXY=off GOSUMDB=off GOTOOLCHAIN=local   (no network; default `go` is 1.23). Run the test suite with: cd {wt} && go test -count=1 ./...
